@@ -92,7 +92,7 @@ fn history<K: AltKey, V: AltVal, S: BuildHasher + Clone>(name: &'static str, mut
         let ids: Vec<u32> = cache.keys().take(cache.len() + 2).map(|k| k.id()).collect();
         if cache.len() != model.len() || ids != *model {
             if out.len() < 4 {
-                out.push(AltViol { props: C04 | C05, class: "alt-types-model", msg: format!("{}: after {} the cache holds {:?} (len {}), the sequential model {:?}", name, what, ids, cache.len(), model) });
+                out.push(AltViol { props: C04 | C05 | if what == "mutate" { C11 } else { 0 }, class: "alt-types-model", msg: format!("{}: after {} the cache holds {:?} (len {}), the sequential model {:?}", name, what, ids, cache.len(), model) });
             }
             return false;
         }
